@@ -93,6 +93,7 @@ def run(prop, tier, seed, variants, rule, assumptions, extra=None):
         if rc != 0 or len(lines) != expected:
             # the implementation crashed / sanitizer fired: keep what was logged and add an event no action allows
             rep.violations.append(("%s: recorder exited with %d after %d of %d events: %s" % (t, rc, len(lines), expected, so[-300:].replace("\n", " ")), json.dumps({"e": "crash", "binary": t})))
+            lines = [l for l in lines if l.endswith("}") and vlib.TERMINATE not in l]
         cur = []
         for ln in lines:
             if ln.startswith('{"e":"init"') and cur: traces.append(cur); cur = []
